@@ -29,6 +29,19 @@ add('C05', 'E-RUN+E-CHW+gen', 'exploration',
     'Trusted: fake always-succeeding insert client; the wedged verdict needs a client timeout of 15 s AND two identical goroutine dumps 2 s apart (a timeout alone is inconclusive). Inputs are sampled, not enumerated.',
     'runtime monitoring: crash-isolated fuzzing with liveness, canary and goroutine-census monitors', 'DESIGN §3 C05')
 
+add('C04', 'E-RUN+E-CHW+gen', 'exploration',
+    'Three runtime monitors: (1) the exported ingest parsers are run on random label sets (hostile bytes) in two orders and through every protocol that can carry the set unchanged - fingerprints must agree, no collision among the distinct sets (CityHash type), the stored label document must be strict JSON decoding to exactly the set; (2) push histories (several days, cache resets with a 40 ms cache period, series INSERT failing through all retries followed by a client retry, clustered and single mode) against the real writer - every acknowledged sample must have a successfully inserted series row, returned before the answer, dated so that the read side finds it; (3) the same histories in child processes with TZ east and west of UTC and samples at UTC/local midnight +-1 s.',
+    'Trusted: read-side search rule restated in the oracle (date(t-30min) <= d <= date(t), UTC); byte-preserving strict JSON parser; fake insert client. Bernstein (32-bit) fingerprint collisions are reported as a note, not judged.',
+    'runtime monitoring: differential run of the exported parsers + offline conservation check over recorded histories, time-zone sweep', 'DESIGN §3 C04')
+add('C18', 'E-RUN+E-CAT', 'fault_enumeration',
+    'The real maintenance.Update runs against a fake clickhouse.Conn with a modelled catalogue (E-CAT). For each of 10 deployment configurations every statement of the uninterrupted run is a fault point in three kinds (fails before effect; effect applied but error returned and connection dead; version write fails), followed by up to three restarts on the surviving catalogue; thorough adds a second fault at every statement of the first restart. Oracle: restarts complete, scripts applied in file order without gaps, a recorded version never ahead of completed scripts, final catalogue equal to the uninterrupted run, a further run executes no script.',
+    'Trusted: E-CAT DDL model and ClickHouse error behaviour (codes 57/60/15...), one catalogue stands for the whole cluster. Exhaustive over fault points of the enumerated configurations in the quick tier; triple faults are sampled.',
+    'runtime fault enumeration on the real Update against a modelled catalogue, statement-log monitor', 'DESIGN §3 C18, Appendix B')
+add('C19', 'E-RUN+E-CAT', 'fault_enumeration',
+    'The real Update+Rotate run against E-CAT with a modelled settings table and per-table TTL / storage policy. Scenarios = deployment x sequences of 1-4 retention configurations (ttl days, 0-3 tiers with durations 1 s..100 y and disks, storage policy present/absent, clustered or not); every statement of every run is a fault point followed by restarts. Oracle: every data table ends with the configured TTL (tier moves clamped to >= 1 min / >= 1 day) and storage policy, markers written only after all tables of their group were altered, interrupted runs converge, a second run with unchanged configuration issues no ALTER.',
+    'Trusted: E-CAT model of ALTER ... MODIFY TTL/SETTING and of the settings table (argMax read semantics). Required values are computed from the configuration and the property text, not from the statements issued. Fault points complete per configuration; configurations sampled by the PRNG.',
+    'runtime fault enumeration on the real Rotate against a modelled catalogue, statement-log monitor', 'DESIGN §3 C19, Appendix B')
+
 NOT_APPLICABLE = {
 }
 ALL = ['C%02d' % i for i in range(1, 21)]
@@ -76,6 +89,8 @@ HOOK_COMMITS = []
 ENGINES = [
  {'name': 'E-RUN', 'path': 'harness/engines/run', 'serves_properties': ALL, 'kind_free_text': 'case runner: seeds, child processes with write-ahead log, verdicts, evidence, known findings'},
  {'name': 'E-CHW', 'path': 'harness/engines/chw', 'serves_properties': ['C01','C02','C03','C04','C05','C06'], 'kind_free_text': 'fake ClickHouse insert client with fault scripts and a logically-clocked ledger; in-process assembly of the real writer'},
+ {'name': 'E-CAT', 'path': 'harness/engines/cat', 'serves_properties': ['C18','C19'], 'kind_free_text': 'fake clickhouse.Conn with a modelled catalogue (DDL effects, ClickHouse errors, ver/settings tables, fault injection at statement i)'},
+ {'name': 'E-RACE', 'path': 'harness/engines/race', 'serves_properties': ['C01','C02'], 'kind_free_text': 'race-detector report collector, de-duplication and scope classifier'},
  {'name': 'gen', 'path': 'harness/engines/gen', 'serves_properties': ['C01','C02','C03','C04','C05','C06'], 'kind_free_text': 'ingest body generators (expected rows known by construction)'},
 ]
 if __name__ == '__main__':
